@@ -143,8 +143,10 @@ impl EngineMgr {
     // A5: set_state is durable when it returns Ok
     #[verifier::external_body]
     pub async fn set_state(&self, ctx: &Ctx, state: &ReplicaState) -> (r: Result<(), CtxError>) { unimplemented!() }
+    pub uninterp spec fn stored_state(&self) -> ReplicaState;      // A5: what set_state last made durable
     #[verifier::external_body]
-    pub async fn get_state(&self, ctx: &Ctx) -> (r: Result<ReplicaState, CtxError>) { unimplemented!() }
+    pub async fn get_state(&self, ctx: &Ctx) -> (r: Result<ReplicaState, CtxError>)
+        ensures r matches Ok(s) ==> s == self.stored_state() { unimplemented!() }
     #[verifier::external_body]
     pub async fn queue_block(&self, ctx: &Ctx, block: Block) -> (r: Result<(), CtxError>) { unimplemented!() }
     #[verifier::external_body]
@@ -163,6 +165,9 @@ impl ProposalCache {
     // R-stub for `for (number, payloads) in &self.block_proposal_cache { proposals.extend(payloads.values().map(..)) }`
     #[verifier::external_body]
     pub fn to_proposals(&self) -> (r: Vec<Proposal>) { unimplemented!() }
+    // R-stub for `let mut c = BTreeMap::new(); for proposal in backup.proposals { c.entry(..).or_default().insert(..) }`
+    #[verifier::external_body]
+    pub fn from_proposals(p: &Vec<Proposal>) -> (r: Self) { unimplemented!() }
     // R-chain: `.entry(n).or_default().insert(h, p)`
     #[verifier::external_body]
     pub fn insert_payload(&mut self, n: BlockNumber, h: PayloadHash, p: Payload)
@@ -455,7 +460,7 @@ impl StateMachine {
 """)
     U.fn(F_NV, SM + " :: fn on_new_view", wrap=SM, ret="r", header_subs=HDR + [("Result<(), Error>", "Result<(), NewViewError>")], rules_=RULES,
          subs=PATHS + [("Error::", "NewViewError::", None), ("author.clone().into()", "Box::new(author.clone())   /* R-std */", None)]
-              + r_try("NewViewError", [(".wrap(())", 2), ("self.start_new_view(ctx, message.view().number).await", 1)]),
+              + r_try("NewViewError", [(".wrap(())", 2), ("self.start_new_view(ctx, $V).await", 1)]),
          post_subs=[("match &message.justification {", """proof { a7_justification_bounded(message.justification, self.g(), self.config.epoch, &self.config.validators); }
         match &message.justification {""")],
          spec="""
@@ -556,6 +561,139 @@ impl StateMachine {
 """)
 
 
+VOTES_PRELUDE = r"""
+// ---------------- vote collection (on_commit / on_timeout): the cache bookkeeping is ABSTRACTED (R-stub, unverified statements) ----------------
+impl ViewsCache {
+    #[verifier::external_body] pub fn new() -> Self { unimplemented!() }
+    #[verifier::external_body] pub fn get(&self, k: &PublicKey) -> (r: Option<&ViewNumber>) { unimplemented!() }
+}
+impl CommitQcsCache { #[verifier::external_body] pub fn new() -> Self { unimplemented!() } }
+impl TimeoutQcsCache { #[verifier::external_body] pub fn new() -> Self { unimplemented!() } }
+impl StateMachine {
+    // R-stub A: `let commit_qc = self.commit_qcs_cache.entry(..).or_default().entry(..).or_insert_with(..); commit_qc.add(..).expect(..);
+    //            let weight = commit_qc.signers.weight(..); self.commit_views_cache.insert(..); let active_views ..; self.commit_qcs_cache.retain(..);`
+    // frame: only the four vote caches change; yields the weight collected so far for this vote
+    #[verifier::external_body]
+    pub fn stub_collect_commit(&mut self, signed_message: &Signed<ReplicaCommit>) -> (weight: u64)
+        requires sig_ok(signed_message.msg, signed_message.key, signed_message.sig), signed_message.msg.view.ok(old(self).g(), old(self).config.epoch)
+        ensures final(self).snapshot() == old(self).snapshot(), final(self).config == old(self).config,
+                final(self).verif_persisted == old(self).verif_persisted, final(self).verif_sent == old(self).verif_sent,
+    { unimplemented!() }
+    // R-stub B: `self.commit_qcs_cache.remove(&view).unwrap().remove(message).unwrap()` -- ASSUMED: the certificate assembled from
+    // individually verified votes (CommitQC::add, proved in unit qc) whose weight was just compared with the quorum is valid
+    #[verifier::external_body]
+    pub fn stub_consume_commit(&mut self, message: &ReplicaCommit, Ghost(weight): Ghost<u64>) -> (qc: CommitQC)
+        requires weight as int >= spec_quorum(old(self).config.validators.total_weight as nat)     // commit only on a quorum
+        ensures qc.message == *message, qc.valid(old(self).g(), old(self).config.epoch, &old(self).config.validators),
+                final(self).snapshot() == old(self).snapshot(), final(self).config == old(self).config,
+                final(self).verif_persisted == old(self).verif_persisted, final(self).verif_sent == old(self).verif_sent,
+    { unimplemented!() }
+    #[verifier::external_body]
+    pub fn stub_collect_timeout(&mut self, signed_message: &Signed<ReplicaTimeout>) -> (weight: u64)
+        requires sig_ok(signed_message.msg, signed_message.key, signed_message.sig),
+                 signed_message.msg.valid(old(self).g(), old(self).config.epoch, &old(self).config.validators)
+        ensures final(self).snapshot() == old(self).snapshot(), final(self).config == old(self).config,
+                final(self).verif_persisted == old(self).verif_persisted, final(self).verif_sent == old(self).verif_sent,
+    { unimplemented!() }
+    #[verifier::external_body]
+    pub fn stub_consume_timeout(&mut self, view: ViewNumber, Ghost(weight): Ghost<u64>) -> (qc: TimeoutQC)
+        requires weight as int >= spec_quorum(old(self).config.validators.total_weight as nat)
+        ensures qc.view.number == view, qc.valid(old(self).g(), old(self).config.epoch, &old(self).config.validators),
+                final(self).snapshot() == old(self).snapshot(), final(self).config == old(self).config,
+                final(self).verif_persisted == old(self).verif_persisted, final(self).verif_sent == old(self).verif_sent,
+    { unimplemented!() }
+}
+"""
+
+
+def add_votes(U):
+    U.raw(VOTES_PRELUDE, label="prelude votes")
+    err_enum(U, F_COMMIT, "CommitError", None)
+    err_enum(U, F_TIMEOUT, "TimeoutError", None)
+    common_post = """
+    requires old(self).wf(),
+    ensures final(self).config == old(self).config, final(self).wf(),
+            final(self).view_number.0 >= old(self).view_number.0, final(self).high_vote == old(self).high_vote,
+            final(self).commit_view() >= old(self).commit_view(), final(self).timeout_view() >= old(self).timeout_view(),
+            // accept condition (informal spec): committee member, not from a past view, valid signature, right chain/epoch
+            r.is_ok() ==> (exists|j: int| 0 <= j < old(self).config.validators.vec@.len() && #[trigger] old(self).config.validators.vec@[j].key == signed_message.key)
+                && signed_message.msg.view.number.0 >= old(self).view_number.0
+                && sig_ok(signed_message.msg, signed_message.key, signed_message.sig)
+                // the view changes only when a certificate for the MESSAGE's view has formed, and then to exactly the following view
+                && (final(self).view_number == old(self).view_number && final(self).phase == old(self).phase && final(self).verif_sent == old(self).verif_sent
+                    || final(self).view_number.0 == signed_message.msg.view.number.0 + 1 && final(self).max_cert_view() >= signed_message.msg.view.number.0),
+            (r.is_err() && !(r matches Err(%(E)s::Internal(_)))) ==> final(self).snapshot() == old(self).snapshot() && final(self).verif_sent == old(self).verif_sent,
+"""
+    U.fn(F_COMMIT, SM + " :: fn on_commit", wrap=SM, ret="r", header_subs=HDR + [("Result<(), Error>", "Result<(), CommitError>")], rules_=RULES,
+         regions=[("let commit_qc = self\n            .commit_qcs_cache\n            .entry", ".retain(|view_number, _| active_views.contains(view_number))",
+                   "let weight = self.stub_collect_commit(&signed_message);"),
+                  ("let commit_qc = self\n            .commit_qcs_cache\n            .remove", ".remove(message)",
+                   "let commit_qc = self.stub_consume_commit(message, Ghost(weight));")],
+         subs=PATHS + [("Error::", "CommitError::", None), ("author.clone().into()", "Box::new(author.clone())   /* R-std */", None),
+                        ("if let Some(&view) = $E {", "if let Some(verif_view_ref) = $E { let view = *verif_view_ref;   /* R-refpat */")]
+              + r_try("CommitError", [(".wrap(())", 1), ("self.start_new_view(ctx, $V).await", 1)]),
+         post_subs=[("self.process_commit_qc(ctx, &commit_qc)", "proof { a7_commit_qc_bounded(commit_qc, self.g(), self.config.epoch, &self.config.validators); } self.process_commit_qc(ctx, &commit_qc)")],
+         spec=common_post % dict(E="CommitError"))
+    U.fn(F_TIMEOUT, SM + " :: fn on_timeout", wrap=SM, ret="r", header_subs=HDR + [("Result<(), Error>", "Result<(), TimeoutError>")], rules_=RULES,
+         regions=[("let timeout_qc = self\n            .timeout_qcs_cache\n            .entry", ".retain(|view_number, _| active_views.contains(view_number))",
+                   "let weight = self.stub_collect_timeout(&signed_message);"),
+                  ("let timeout_qc = self.timeout_qcs_cache.remove", "self.timeout_qcs_cache.remove(&message.view.number)",
+                   "let timeout_qc = self.stub_consume_timeout(message.view.number, Ghost(weight));")],
+         subs=PATHS + [("Error::", "TimeoutError::", None), ("author.clone().into()", "Box::new(author.clone())   /* R-std */", None),
+                        ("if let Some(&view) = $E {", "if let Some(verif_view_ref) = $E { let view = *verif_view_ref;   /* R-refpat */")]
+              + r_try("TimeoutError", [(".wrap(())", 1), ("self.start_new_view(ctx, $V).await", 1)]),
+         post_subs=[("self.process_timeout_qc(ctx, &timeout_qc)", "proof { a7_timeout_qc_bounded(timeout_qc, self.g(), self.config.epoch, &self.config.validators); } self.process_timeout_qc(ctx, &timeout_qc)")],
+         spec=common_post % dict(E="TimeoutError"))
+
+
+def add_start(U):
+    U.raw("""
+pub open spec fn snap_of(b: ChonkyV2State) -> Snap {
+    Snap { view: b.view_number, phase: b.phase, high_vote: b.high_vote, high_commit_qc: b.high_commit_qc, high_timeout_qc: b.high_timeout_qc }
+}
+pub open spec fn snap_default() -> Snap {
+    Snap { view: ViewNumber(0), phase: Phase::Prepare, high_vote: None, high_commit_qc: None, high_timeout_qc: None }
+}
+""", label="spec start")
+    U.fn(F_STATE, "impl Default for ChonkyV2State :: fn default", wrap="impl ChonkyV2State", ret="r",
+         subs=[("vec![]", "Vec::new()   /* R-std */")],
+         spec="    ensures snap_of(r) == snap_default(), r.epoch == EpochNumber(0),\n")
+    U.fn(F_MOD, SM + " :: fn start", wrap=SM, ret="r", rules_=RULES,
+         header_subs=[("ctx::Ctx", "Ctx"), ("ctx::Result<Self>", "Result<Self, CtxError>"),
+                      ("ctx::channel::UnboundedSender<ToNetworkMessage>", "OutChannel"),
+                      ("sync::prunable_mpsc::Receiver<FromNetworkMessage>", "InChannel"),
+                      ("sync::watch::Sender<Option<validator::v2::ProposalJustification>>", "ProposerSender")],
+         subs=PATHS + [("let mut block_proposal_cache: BTreeMap<_, HashMap<_, _>> = BTreeMap::new();",
+                        "let block_proposal_cache = ProposalCache::from_proposals(&backup.proposals);   /* R-stub (with the loop below): proposal cache, not voting state */"),
+                       ("for proposal in backup.proposals { $B }", ""),
+                       ("time::Deadline::Finite(ctx.now() + config.view_timeout)", "deadline_after(ctx, &config.view_timeout)   /* R-stub */"),
+                       ("commit_views_cache: BTreeMap::new()", "commit_views_cache: ViewsCache::new()"),
+                       ("commit_qcs_cache: BTreeMap::new()", "commit_qcs_cache: CommitQcsCache::new()"),
+                       ("timeout_views_cache: BTreeMap::new()", "timeout_views_cache: ViewsCache::new()"),
+                       ("timeout_qcs_cache: BTreeMap::new()", "timeout_qcs_cache: TimeoutQcsCache::new()"),
+                       ("view_start: ctx.now(),", "view_start: ctx.now(), verif_persisted: Ghost(snap_of(backup)), verif_sent: Ghost(Seq::empty()),   /* W-ghost */")],
+         spec="""
+    ensures
+        // restart restores exactly the durable voting state (view, PHASE, high vote, high certificates) when it belongs to this epoch,
+        // and starts from the initial state otherwise
+        r matches Ok(sm) ==> sm.config == config && (match config.engine_manager.stored_state() {
+            ReplicaState::V2(b) => sm.snapshot() == (if b.epoch == config.epoch { snap_of(b) } else { snap_default() })
+        }) && sm.verif_persisted@ == sm.snapshot() && sm.verif_sent@.len() == 0,
+""")
+    U.fn(F_PROPOSER, "fn create_proposal", ret="r", rules_=RULES,
+         header_subs=[("ctx::Ctx", "Ctx"), ("ctx::Result<validator::v2::LeaderProposal>", "Result<LeaderProposal, CtxError>"), ("validator::v2::", "", None)],
+         subs=PATHS + [("anyhow_error()\n                .into()", "CtxError::Internal(anyhow_error())   /* R-errmsg */")],
+         post_subs=[("let (block_number, opt_block_hash) =", "proof { lemma_prepare_implied(justification, cfg.genesis(), cfg.epoch, &cfg.validators); } let (block_number, opt_block_hash) =")],
+         props=["C02", "C05"],
+         spec="""
+    requires cfg.validators.wf(), justification.valid(cfg.genesis(), cfg.epoch, &cfg.validators),
+    ensures r matches Ok(p) ==> p.justification == justification
+        // the proposer attaches a payload exactly when the justification does not force a re-proposal
+        && exists|im: (BlockNumber, Option<PayloadHash>)| #[trigger] is_implied(justification, &cfg.validators, cfg.first_block, im)
+              && (im.1.is_some() <==> p.proposal_payload.is_none()),
+""")
+
+
 def build(repo):
     U = Unit("replica", ["C04"], desc="replica state machine", uses=T.USES + "\nuse std::sync::Arc;")
     U.repo = repo
@@ -580,6 +718,8 @@ def build(repo):
     add_core(U)
     add_views(U)
     add_proposal(U)
+    add_votes(U)
+    add_start(U)
     U.assume("A4: a handler runs on one task and owns &mut self; .await points are sequential calls")
     U.assume("A5: EngineManager::set_state is durable when it returns Ok; what get_state returns is what was last stored")
     U.assume("H-ind: the induction over all histories that turns the per-handler rules into global agreement is not mechanised")
